@@ -72,9 +72,14 @@ class C12(Prop):
     level_note = "trusts the 7-entry bit table in vf/props/c12.py; odd masks between 3 and 253 are outside the statement"
     assumptions = ["bit table Monday 0x02 .. Sunday 0x80 as in the statement"]
     anchors = ["aioswitcher.schedule.tools:weekdays_to_hexadecimal", "aioswitcher.schedule.tools:bit_summary_to_days"]
-    min_evaluations = {"quick": 1800, "thorough": 1800}
+    min_evaluations = {"quick": 3600, "thorough": 3600}
     exhaustive = {"quick": True, "thorough": True}
-    nshards = {"quick": 1, "thorough": 1}
+    nshards = {"quick": 2, "thorough": 2}
+
+    def worker_pyflags(self, shard):
+        # the complete enumeration once more under python -O (rejections written as assertions vanish there);
+        # icontract switches itself off under -O, the direct comparisons below do not
+        return ["-O"] if shard == 1 else []
 
     async def setup(self, ctx):
         self.enc_rec, self.dec_rec = attach()
@@ -226,7 +231,8 @@ class C12(Prop):
     def finish(self, acc, ctx):
         acc.count("contract_evaluations_encode", self.enc_rec.evaluations)
         acc.count("contract_evaluations_decode", self.dec_rec.evaluations)
-        if self.enc_rec.evaluations == 0 or self.dec_rec.evaluations == 0:
+        acc.count("passes_optimised_interpreter" if not __debug__ else "passes_normal_interpreter")
+        if __debug__ and (self.enc_rec.evaluations == 0 or self.dec_rec.evaluations == 0):
             acc.inconclusive_because("a C12 contract was never evaluated")
 
 
